@@ -197,7 +197,8 @@ def check_call(fq, args, kwargs=None, contract=None, fn=None):
     except Exception as e:  # a precondition that cannot be evaluated = out of domain
         return {"status": "skip", "why": "precondition not evaluable: %r" % (e,)}
     for nm, expr in (c.get("old") or {}).items():
-        env[nm] = copy.deepcopy(ev(expr, env))
+        # pre-state values are copies, except names the contract uses for object IDENTITY (same_object(..., old_x))
+        env[nm] = ev(expr, env) if nm in (c.get("old_by_reference") or ()) else copy.deepcopy(ev(expr, env))
     allowed = set(c.get("modifies") or [])
     before = {}
     for p, v in ba.arguments.items():
